@@ -30,7 +30,7 @@ ASSUMPTIONS = ['acceptance asserted when computed lambda_min >= -tol_eff/4, NonP
 def convert_case(draw):
   d = draw(st.integers(1, 8))
   cls = draw(st.sampled_from(['full', 'rankdef', 'diagonal', 'diag-rankdef', 'near-in', 'near-out', 'indefinite',
-                              'wide', 'asym', 'diag-neg']))
+                              'wide', 'asym', 'diag-neg', 'int-diagonal', 'int-gram']))
   logs = [draw(st.floats(-7, 7, allow_nan=False)) for _ in range(d)]
   w = [10.0 ** v for v in logs]
   if cls in ('full', 'diagonal'):
@@ -39,6 +39,7 @@ def convert_case(draw):
   trel = 10.0 ** draw(st.integers(-12, -2))
   r = draw(st.integers(0, max(0, d - 1)))
   return dict(kind='convert', d=d, cls=cls, w=w, bseed=draw(st.integers(0, 10 ** 6)), tol=tol, trel=trel, r=r,
+              f32=draw(st.integers(0, 3)) == 0,
               frac=draw(st.floats(0.0, 1.0, allow_nan=False)), neg=10.0 ** draw(st.floats(-7, 0, allow_nan=False)))
 
 
@@ -57,6 +58,14 @@ def build_matrix(case):
     w[0] = -(20 + 100 * case['frac']) * max(t, 1e-8 * wmax)
   if cls in ('indefinite', 'diag-neg'):
     w[0] = -case['neg'] * wmax
+  if cls in ('int-diagonal', 'int-gram'):
+    rsi = np.random.RandomState(case['bseed'])
+    if cls == 'int-diagonal':
+      M = np.diag(rsi.randint(0, 10, size=d)).astype(np.int64)
+    else:
+      G = rsi.randint(-3, 4, size=(max(1, case['r']), d))
+      M = G.T.dot(G).astype(np.int64)          # exactly PSD, rank <= r, integer dtype
+    return M, tol_abs
   if cls in ('diagonal', 'diag-rankdef', 'diag-neg'):
     M = np.diag(w)
   else:
@@ -75,7 +84,16 @@ def check_convert(case, stats):
   NonPSD = mlsub('exceptions').NonPSDError
   M, tol_abs = build_matrix(case)
   d = case['d']
+  eps_in = EPS
+  if case.get('f32') and case['cls'] in ('full', 'rankdef', 'diagonal', 'diag-rankdef', 'indefinite', 'wide') and d >= 3:
+    # the same matrix stored in single precision: the documented default tolerance then uses float32's eps
+    M = M.astype(np.float32)
+    M = (M + M.T) / 2
+    eps_in = float(np.finfo(np.float32).eps)
   args = (M.copy(),) if tol_abs is None else (M.copy(), tol_abs)
+  M = M.astype(float)
+  if not np.any(M):
+    raise Discard('zero matrix')
   sym = np.allclose(M, M.T)
   if case['cls'] == 'asym' and d > 1:
     r = call('C20/convert/asymmetric', U.components_from_metric, *args, expect=(ValueError,))
@@ -87,15 +105,17 @@ def check_convert(case, stats):
   lmin, lmax = float(w.min()), float(np.abs(w).max())
   if lmax < 1e-250:
     raise Discard('spectrum in the subnormal range')
-  tol_eff = tol_abs if tol_abs is not None else lmax * d * EPS
+  tol_eff = tol_abs if tol_abs is not None else lmax * d * eps_in
+  if eps_in != EPS and tol_abs is not None and tol_abs < 64 * d * eps_in * lmax:
+    raise Discard('explicit tolerance below single-precision resolution')
   r = call('C20/convert/' + case['cls'], U.components_from_metric, *args, expect=(ValueError,))
   clause = 'boundary'
   normM = float(np.linalg.norm(M, 2)) if d else 0.0
-  if lmin >= -tol_eff / 4 and not (tol_eff < 32 * d * EPS * lmax and lmin < 8 * d * EPS * lmax and tol_abs is not None):
+  if lmin >= -tol_eff / 4 and not (tol_eff < 32 * d * eps_in * lmax and lmin < 8 * d * eps_in * lmax and tol_abs is not None):
     clause = 'accept'
     if isinstance(r, Exception):
       raise Violation('C20/convert/psd-rejected/' + case['cls'], 'lambda_min=%g lambda_max=%g tol=%r: %r' % (lmin, lmax, tol_abs, r))
-  elif lmin <= -max(10 * tol_eff, 1e-8 * lmax):
+  elif lmin <= -max(10 * tol_eff, 1e-8 * lmax, 64 * d * eps_in * lmax if eps_in != EPS else 0.0):
     clause = 'reject'
     if not isinstance(r, NonPSD):
       raise Violation('C20/convert/indefinite-accepted/' + case['cls'], 'lambda_min=%g lambda_max=%g tol=%r: %s'
@@ -106,11 +126,12 @@ def check_convert(case, stats):
       raise Violation('C20/convert/shape', 'L shape %s dtype %s' % (L.shape, L.dtype))
     Lq = L.astype(np.longdouble)
     err = float(np.abs((Lq.T.dot(Lq)).astype(float) - M).max())
-    bound = 80 * d * EPS * normM + max(0.0, -lmin) * 1.01 + 1e-300
+    bound = 80 * d * eps_in * normM + max(0.0, -lmin) * 1.01 + 1e-300
     if err > bound:
       raise Violation('C20/convert/LtL-differs/' + case['cls'], 'max|L^T L - M| = %g > %g (lambda_min %g, ||M|| %g)' % (err, bound, lmin, normM))
   diag_pd = case['cls'] == 'diagonal'
-  stats.case(case, not diag_pd, ['convert', 'convert:' + case['cls'], 'clause:' + clause, 'tol:' + case['tol']])
+  stats.case(case, not diag_pd, ['convert', 'convert:' + case['cls'], 'clause:' + clause, 'tol:' + case['tol'],
+                                 'dtype:float32' if eps_in != EPS else 'dtype:float64'])
 
 
 # ------------------------------------------------------------------------------------- priors
@@ -123,7 +144,7 @@ def prior_case(draw):
   name = draw(st.sampled_from(PRIOR_LEARNERS))
   desc = draw(gen.dataset_desc(dmax=6))
   desc['cond'] = draw(st.sampled_from([1, 10, 100, 1000, 10000]))     # covariance spectra over up to 8 decades
-  opt = draw(st.sampled_from(['identity', 'covariance', 'random', 'array', 'array-singular', 'array-asym',
+  opt = draw(st.sampled_from(['identity', 'covariance', 'random', 'array', 'array-int', 'array-f32', 'array-singular', 'array-asym',
                               'array-shape', 'array-indefinite', 'covariance-singular', 'bad-string']))
   return dict(kind='prior', est=name, desc=desc, opt=opt, seed=draw(st.integers(0, 10 ** 6)),
               aseed=draw(st.integers(0, 999)), cond=draw(st.sampled_from([1.0, 1e2, 1e4, 1e6])))
@@ -159,6 +180,15 @@ def check_prior(case, stats):
       arr = arr.copy()
       arr[j, :] = 0.0
       arr[:, j] = 0.0
+    elif opt == 'array-int':
+      # an integer-valued SPD matrix stored with an integer dtype (diagonally dominant)
+      rsi = np.random.RandomState(case['aseed'])
+      off = rsi.randint(-1, 2, size=(d, d))
+      off = np.triu(off, 1)
+      arr = (off + off.T + np.diag(np.full(d, d + 1) + rsi.randint(0, 3, size=d))).astype(np.int64)
+    elif opt == 'array-f32':
+      arr = arr.astype(np.float32)
+      arr = ((arr + arr.T) / 2).astype(np.float32)
     elif opt == 'array-asym':
       arr = arr.copy()
       arr[0, d - 1] += 0.5 * np.abs(arr).max()
@@ -229,7 +259,8 @@ def check_prior(case, stats):
     stats.case(case, opt != 'identity', ['prior', 'prior:' + opt, name, 'accepted'])
     return
   M = est.get_mahalanobis_matrix()
-  ref = oracle_prior('covariance' if opt == 'covariance-singular' else ('array' if arr is not None else opt), d, T, case['seed'], arr)
+  ref = oracle_prior('covariance' if opt == 'covariance-singular' else ('array' if arr is not None else opt), d, T, case['seed'],
+                     None if arr is None else np.asarray(arr, dtype=float))
   if opt in ('covariance', 'covariance-singular'):
     C = ref
     cn = np.linalg.norm(C, 2)
@@ -252,7 +283,7 @@ def check_prior(case, stats):
       got, want = np.diag(M), np.diag(ref)
     else:
       got, want = M, ref
-    rtol = 1e-3 if name == 'SDML' else 1e-9 * max(1.0, np.linalg.cond(ref))
+    rtol = 1e-3 if name == 'SDML' else (1e-5 if opt == 'array-f32' else 1e-9) * max(1.0, np.linalg.cond(ref))
     if opt == 'identity' and name in ('LSML', 'ITML', 'MMC') and not np.array_equal(got, want):
       raise Violation('C20/prior/identity-not-exact/' + tag, '%r' % (got,))
     if not np.allclose(got, want, rtol=rtol, atol=rtol * np.abs(want).max()):
